@@ -405,6 +405,10 @@ def r3_codec_table(ck, F, R="C01-R3"):
             # feature compiled out: both sides must be the "unsupported" stubs (return Err)
             stubs = [F.body(n) for n in lc + ld]
             ok = bool(stubs) and all(_returns_err_only(b_) for b_ in stubs) and len(lc) >= 1 and len(ld) >= 1
+            if not stubs:
+                # the stub spliced into the arm (a helper the pinned tree does not have): the arm builds an io::Error
+                # and reaches nothing else
+                ok = all(any(n_.endswith("io::Error::new") for n_ in side) and all(n_.endswith(("io::Error::new", "::into", "::from")) or n_.startswith(("std::", "core::", "alloc::", "<std::", "<core::", "<alloc::", "<T as std::")) for n_ in side) for side in (cc, dc))
             ck.ob(R, f"compress-arm/{v}", ok, f"{v}: feature off, both arms end in Err stubs ({lc + ld})", comp, config=F.config, nontrivial=False)
             ck.ob(R, f"decompress-arm/{v}", ok, f"{v}: feature off, both arms end in Err stubs ({lc + ld})", deco, config=F.config, nontrivial=False)
             continue
